@@ -603,6 +603,21 @@ def _construction(rep: ModelReport, it, DL, methods, evaluate, els: List[El]) ->
         want = [cur[0], cur[-1], cur[0], cur[-1]]
         if r[0] != "value" or not isinstance(r[1], list) or len(r[1]) != 4 or not all(a is b for a, b in zip(r[1], want)):
             rep.bad("get_by_any", f"get_by_any([0, {cur[-1].id!r}, {cur[0]!r}, -1]) on {cur!r} gives {r[1]!r}, expected {want}")
+        # an identifier is a string whatever it looks like: one that consists of digits is not a position
+        digits = [El("0"), El("7"), El("1")]
+        dl2 = DL.__new__(DL)
+        list.__init__(dl2)
+        list.extend(dl2, digits)
+        list.__getattribute__(dl2, "__dict__")["_dict"] = {e.id: i for i, e in enumerate(digits)}
+        r = evaluate(dl2, "get_by_any", [["1", 1, "0", "7"]])
+        rep.cases += 1
+        want = [digits[2], digits[1], digits[0], digits[1]]
+        if r[0] != "value" or not isinstance(r[1], list) or len(r[1]) != 4 or not all(a is b for a, b in zip(r[1], want)):
+            rep.bad("get_by_any", f"get_by_any(['1', 1, '0', '7']) on the elements with the identifiers '0', '7', '1' gives {r[1]!r}, expected {want}: a string is an identifier, an integer a position")
+        r = evaluate(dl2, "get_by_any", ["1"])
+        rep.cases += 1
+        if r[0] != "value" or not isinstance(r[1], list) or len(r[1]) != 1 or r[1][0] is not digits[2]:
+            rep.bad("get_by_any", f"get_by_any('1') on the elements with the identifiers '0', '7', '1' gives {r[1]!r}, expected the element whose identifier is '1'")
     # list_attr / query (results are new coherent lists)
     if "query" in methods and els:
         dl, cur = _state_from(DL, els)
